@@ -32,27 +32,28 @@ EXTRA_PROPS = ['BridgeC05', 'GenTieCore', 'GenTieC05']   # refinement bridge fro
 LEVEL = "proof"
 MANIFEST = {
     "category": "proof",
-    "text": ("Lean 4 theorems (partial) about an executable rational model of the steady-state machinery: the steady path is "
-             "constant/arithmetic/geometric as declared (and the code's exp(log l + s log c) equals l*c^s over the reals); the residual "
-             "of every equation of degree <= 1 in the moving quantities is affine in the date, so zero at two dates means zero at all "
-             "dates, and within eps at dates t0<t1 means within eps*(1+2|t-t0|/(t1-t0)) at every date (all linear models, log-linear "
-             "balanced growth); whatever the executable linear algorithm returns makes the model's own residual function zero at every "
-             "rational date (refinement bridge QMat -> Matrix from the checked solve to the stacked two-date theorem, also for the flat "
-             "algorithm and the measurement block); block recursion: for every iteration wrapped by the acceptance step (exit test + an "
-             "executable certificate, proved sound -- no assumed certificate), if the loop completes and the blocks "
-             "have the ordering property, every equation of every block holds on the final stored variant (induction over the block "
-             "list, with the proved frame condition that write-back touches only the block's unknowns and the proved consistency of "
-             "the evaluator's array with the stored path); plan-fixed/exogenized quantities are never written, endogenized parameters "
-             "are exactly the extra unknowns; autovalue equations hold after the update; exit test => every (equation, date in {t,t+1}) "
-             "residual < tol via the index bijection. Tie: differential correspondence on every run (paths, plan resolution, the block "
-             "loop replayed with the implementation's final guesses, exact-rational validation of the linear solver's output), plus an "
-             "independent text-level oracle on random stationary / drift / balanced-growth models, flat and growth, linear and "
-             "nonlinear, blocks on/off, steady plans, 1-3 variants, both solver options (neqs_levenberg, scipy_root; the 2-norm acceptance "
-             "test of scipy_root is modelled and proved to imply the sup-norm exit test), and a hard-start family (local extrema, unsolvable "
-             "systems, overdetermining plans) on which solve_steady has to raise or store a true steady state; multi-step sessions on one model "
-             "(tolerance override/reset, solver_settings tolerances, re-assignments, per-call linear/flat overrides in both directions), each "
-             "solve judged against the options in force at that call; the flag resolution table and sequences of solver-settings calls are "
-             "compared with the stateless model (resolveFlags, tolInForce)."),
+    "text": ("Lean 4 theorems (partial) about an executable rational model of the steady-state machinery. Proved: the steady path is "
+             "constant/arithmetic/geometric as declared (over the reals exp(log l + s log c) = l*c^s); exit test => every (equation, date in "
+             "{t,t+1}) residual < tol via the index bijection (sup-norm test of neqs; the 2-norm test of scipy_root implies it); write-back "
+             "touches only the block's unknowns, writes every unknown level and every unknown change of a loggable quantity, and depends only "
+             "on the (qid, value) pairing; plan-fixed/exogenized quantities are never written, endogenized parameters are exactly the extra "
+             "unknowns, `fix` = fix_level+fix_change in growth mode; the evaluator's array at an accepted guess is the array rebuilt from the "
+             "stored variant (under an executable certificate proved sound). END TO END (all_equations_hold): for every iteration wrapped by "
+             "the acceptance step and every starting variant (any history, flat or growth), if the loop completes and the block list is "
+             "ordered and COVERING (every equation sits in a block that calls the solver -- the validity of the decomposition is C16's part "
+             "and is exactly what fails in the known finding split-blocks-fully-fixed-quantity, machine-checked as an example), every equation "
+             "of the system is within tol at dates t, t+1 on the stored variant. Every-date statements: equations of degree <= 1 on arithmetic "
+             "paths (within tol(1+2|t|); exact bound eps(1+2|t-t0|/(t1-t0))), monomial (log-linear) equations on geometric paths (zero at two "
+             "dates => zero at all dates); NOT for genuinely nonlinear equations (oracle only). Linear algorithm: whatever the executable "
+             "algorithm returns makes the model's own residual zero at every rational date (QMat -> Matrix bridge; flat, growth, measurement "
+             "block); the constants of the first-order system come from the STEADY versions at the zero point (exogenous variables count as "
+             "0 there: known finding linear-steady-ignores-exogenous-variables, machine-checked). Autovalue equations hold after the update "
+             "when targets are distinct and absent from the right-hand sides. Outside the theorems (runtime, validated per run): convergence, "
+             "floating point, scipy's success flag, lstsq. Tie: differential correspondence on every run (streams path, wrt, planops, flags, "
+             "settings, steady = the loop replayed with the implementation's final guesses, lin/linchk/meas/measchk/linconst = exact-rational "
+             "validation of the linear path) plus an independent text-level oracle on random stationary / drift / balanced-growth models, "
+             "flat and growth, linear and nonlinear, blocks on/off, plans in every spelling, 1-3 variants, both solvers, hard starts, "
+             "multi-step sessions and mode histories judged against the options in force at each call."),
     "design": "7/C05",
     "note": ("partial: Newton/Levenberg convergence, the neqs exit test itself and the every-date claim for genuinely nonlinear "
              "models are runtime facts (validated per generated program by the oracle), floating point is not modelled"),
@@ -64,8 +65,8 @@ ASSUMPTIONS = [
     "the nonlinear solvers (neqs Levenberg, scipy root/lm incl. its success flag) and numpy lstsq are unmodelled; their outputs are validated per run (exit test, exact residuals)",
     "log-variables are modelled multiplicatively (level*change^shift); agreement with exp(log level + shift*log change) is a theorem over the reals, floating-point exp/log is compared with tolerance",
     "the order of the unknowns inside the evaluator's guess vector (CPython set order) is not modelled: the model uses increasing qid and the harness permutes the implementation's final guess accordingly; the *sets* of level/change unknowns are compared exactly",
-    "until pending_fixes/C05-split-blocks-fully-fixed is applied (probed once per run on the minimal case), a plan that fixes level and change of one quantity is not combined with an explicit split_into_blocks=True; corpus/C05/split-blocks-fully-fixed-quantity.json reports only once known_findings.json lists that site for C05",
-    "exogenous variables are only combined with the nonlinear algorithm: with linear=True the steady algorithm ignores them (recorded C06 finding, same root cause; corpus/C05/linear-steady-ignores-exogenous-variables.json is reported only once known_findings.json lists that site for C05)",
+    "known finding `split-blocks-fully-fixed-quantity` (recorded, not repaired): probed once per run on the minimal case (corpus/C05/split-blocks-fully-fixed-quantity.json, reported through the known site); the generator does not otherwise combine a plan that fixes level and change of one quantity with an explicit split_into_blocks=True, so that no failure of that origin lands on another site",
+    "exogenous variables are only combined with the nonlinear algorithm: with linear=True the steady algorithm ignores them (known finding `linear-steady-ignores-exogenous-variables`, same root cause as the C06 finding; corpus/C05/linear-steady-ignores-exogenous-variables.json is probed on every run and reported through the known site)",
     "generated models possess a steady state by construction (stationary blocks are strictly diagonally dominant for every variant, unit root with drift, balanced growth); the every-date oracle is only meaningful for such models -- for a singular parameterisation the linear algorithm (least squares) completes without error on a model that has no steady state, which is outside the property's quantifier",
 ]
 
@@ -474,7 +475,7 @@ def finish_case(G: Builder, linear, flat, plan, split, solver) -> dict:
     src.append("!transition-equations\n" + "\n".join(f"    {eq_text(e)};" for e in G.teqs))
     return {
         "source": "\n".join(src) + "\n", "linear": linear, "flat": flat, "nv": G.nv, "params": G.params, "init": dict(G.init),
-        "plan": plan, "split": split, "tags": G.tags, "solver": solver,
+        "plan": plan, "split": split, "tags": G.tags, "solver": solver, "dyn": G.dyn, "has_dyn": bool(G.dyn),
         "teqs": G.teqs, "meqs": [], "autos": [], "tvars": G.tvars, "mvars": [], "logs": G.logs, "shocks": G.shocks,
     }
 
@@ -573,7 +574,7 @@ def gen_zero_const_case(rng: Rng) -> dict:
            "!transition-equations\n" + "\n".join(f"    {eq_text(e)};" for e in G.teqs),
            "!measurement-equations\n" + "\n".join(f"    {eq_text(e)};" for e in G.meqs)]
     return {"source": "\n".join(src) + "\n", "linear": True, "flat": flat, "nv": nv, "params": G.params, "init": dict(G.init),
-            "plan": None, "split": None, "tags": G.tags, "solver": None,
+            "plan": None, "split": None, "tags": G.tags, "solver": None, "dyn": G.dyn,
             "teqs": G.teqs, "meqs": G.meqs, "autos": [], "tvars": G.tvars, "mvars": G.mvars, "logs": [], "shocks": G.shocks}
 
 
@@ -758,7 +759,7 @@ def gen_case(rng: Rng, force=None) -> dict:
         "source": "\n".join(src) + "\n", "linear": linear, "flat": flat, "nv": nv, "params": G.params, "init": init,
         "plan": plan if has_plan else None, "split": split, "tags": G.tags,
         "solver": rng.weighted([("neqs_levenberg", 2), ("scipy_root", 1)]) if not linear else None,
-        "plan_spelling": rng.randint(1, 10**6) if has_plan else 0, "has_dyn": bool(G.dyn),
+        "plan_spelling": rng.randint(1, 10**6) if has_plan else 0, "has_dyn": bool(G.dyn), "dyn": G.dyn,
         "teqs": G.teqs, "meqs": G.meqs, "autos": G.autos, "tvars": G.tvars, "mvars": G.mvars, "logs": G.logs, "shocks": G.shocks,
     })
 
@@ -1188,6 +1189,15 @@ def compare_linear(ctx: Ctx, case, line, tag, reply):
     cj = {"case": case_for_json(case), "variant": vid, "line": line[:2000]}
     ctx.streams_compared[kind] = ctx.streams_compared.get(kind, 0) + 1
     ws = reply.split()
+    if kind == "linconst":
+        C, H, nt, rational = Xi
+        impl = C[:nt] + H
+        mc = ws
+        good = len(mc) == len(impl) and all((not r) or close(cell(a), b, 1e-9) for a, b, r in zip(impl, mc, rational))
+        good = good and all(abs(x) <= 1e-12 for x in C[nt:])        # auxiliary (lag-identity) rows carry no constant
+        if not good:
+            ctx.disagree("linconst", cj, "C " + " ".join(map(str, C)) + " H " + " ".join(map(str, H)), reply)
+        return
     if kind == "meas":
         if reply == "singular":
             ctx.count("meas_singular"); return
@@ -1362,7 +1372,63 @@ def run_case(ctx: Ctx, case, pending, with_model=True) -> str:
                 pending.append(("steady", case, vid, line, meta, after_loop[vid], after_auto[vid]))
         for line, tag in lin_lines:
             pending.append(("lin", case, line, tag))
+        if case["linear"] and case.get("_systems"):
+            try:
+                for line, tag in linconst_lines(case, m, before, case["_systems"]):
+                    pending.append(("lin", case, line, tag))
+            except Exception as e:
+                ctx.count("linconst_lines_failed")
+                ctx.extra.setdefault("linconst_errors", []).append(repr(e)[:160])
     return "ok" if good else "oracle-failed"
+
+
+@contextlib.contextmanager
+def recording_linear_systems(store: list):
+    """while active, the two linear steady algorithms record the constants (C, H) of the system `_steady_linear` hands them
+    (whatever descriptor it was built from) and then run unchanged"""
+    originals = {n: getattr(FS, n) for n in ("solve_steady_linear_flat", "solve_steady_linear_nonflat")}
+    def wrap(f):
+        def g(system, *a, **k):
+            store.append((np.array(system.C, dtype=float).flatten().tolist(), np.array(system.H, dtype=float).flatten().tolist()))
+            return f(system, *a, **k)
+        return g
+    try:
+        for n, f in originals.items():
+            setattr(FS, n, wrap(f))
+        yield
+    finally:
+        for n, f in originals.items():
+            setattr(FS, n, f)
+
+
+def linconst_lines(case, m, before, systems):
+    """per variant: the constants of the system the linear algorithm was given, against the model's `linearConstants` of the
+    STEADY versions at the zero point (transition rows in the order of transition_eids, then the measurement rows)"""
+    out = []
+    qid = m.create_name_to_qid()
+    quantities = m._invariant.quantities
+    nq = max(q.id for q in quantities) + 1
+    codes = ["p"] * nq
+    for q in quantities:
+        if q.logly is not None:
+            codes[q.id] = "l" if q.logly else "v"
+    sv = m._invariant.steady_descriptor.system_vectors
+    by_human = {re.sub(r"\s+", "", eq_key(lr)): lr for lr in case["teqs"] + case["meqs"]}
+    eqs = {e.id: e for e in m._invariant.steady_equations}
+    rows, rational = [], []
+    for eid in list(sv.transition_eids) + list(sv.measurement_eids):
+        lr = by_human[re.sub(r"\s+", "", eqs[eid].human)]
+        st = eq_to_lean(lr[0], lr[1], qid)
+        dy = case.get("dyn", {}).get(eq_key(lr))
+        dytxt = eq_to_lean(dy[0], dy[1], qid) if dy else None
+        rational.append(st is not None and (dy is None or dytxt is not None))
+        rows.append("n 0" if not rational[-1] else (f"{dytxt} !! {st}" if dy else st))
+    nt = len(sv.transition_eids)
+    for vid, (C, H) in enumerate(systems):
+        lv0 = before[vid][0]
+        L = " ".join(cell(lv0[q]) for q in range(nq))
+        out.append((f"linconst ; {''.join(codes)} ; {L} ; {' | '.join(rows)}", ("linconst", vid, (C, H, nt, rational), None)))
+    return out
 
 
 def solve_two_step(m, plan, case):
@@ -1379,7 +1445,9 @@ def solve_two_step(m, plan, case):
     try:
         with contextlib.redirect_stdout(io.StringIO()), np.errstate(all="ignore"):
             if case["linear"]:
-                m.solve_steady(**kwargs)
+                case["_systems"] = []
+                with recording_linear_systems(case["_systems"]):
+                    m.solve_steady(**kwargs)
             else:
                 # same loop as solve_steady, variant by variant, to attribute the solver calls
                 flags = m.resolve_flags()
